@@ -37,6 +37,7 @@ def parseOpts (s : String) : Option Extract.Opts :=
     else if t == "q1" then some { o with quiet := 1, overwrite := .all }
     else if t == "q2" then some { o with quiet := 2, overwrite := .all }
     else if t == "i" then some { o with usePath := false }
+    else if t == "v" then some o
     else if t.startsWith "w" then (parseHex (t.drop 1).toString).map (fun d => { o with extractPath := some d.toList })
     else none) {}
 
@@ -71,6 +72,23 @@ def opExtract : List String → Option String
       let log := ",".intercalate (r.fs.log.reverse.map (fun m => m.op ++ ":" ++ pathStr m.path))
       some (s!"res={if r.result then 1 else 0} abort={if r.aborted then 1 else 0} " ++
             s!"out={",".intercalate r.out.reverse} fs={listing r.fs} log={log}")
+  | ["xrun2", cmd, opts, root, absp, answers, pre, filters, hex] => do
+      let o ← parseOpts opts
+      let absp ← parseHex absp
+      let ans ← parseHex answers
+      let arch ← parseHex hex
+      let fl ← (if filters == "-" then some [] else (filters.splitOn ",").mapM (fun f => (parseHex f).map (·.toList)))
+      let o := { o with filters := fl }
+      if cmd == "p" then
+        some ("stdout=" ++ toHexL (Extract.print arch o))
+      else
+      let fs0 : Fs.St := { root := root == "1", cwd := ["root".toUTF8.toList], absPrefix := absp.toList,
+                           ents := [(["root".toUTF8.toList], .dir 0o755 1000), (["outside".toUTF8.toList], .dir 0o755 1000),
+                                    (["outside".toUTF8.toList, "canary".toUTF8.toList], .file "canary".toUTF8.toList 0o644 1000)] }
+      let fs1 ← if pre == "-" then some fs0 else (pre.splitOn ",").foldlM addPre fs0
+      let r := Extract.run arch o fs1 ans.toList
+      some (s!"res={if r.result then 1 else 0} abort={if r.aborted then 1 else 0} " ++
+            s!"out={",".intercalate r.out.reverse} fs={listing r.fs}")
   | _ => none
 
 end LhasaV.Driver
